@@ -1,6 +1,6 @@
 // Hook H11 (ipa-core/src/net/server/mod.rs): the `ClientIdentity` request extension is private.
 
-#[cfg(not(feature = "shuttle"))]
+#[cfg(all(not(feature = "shuttle"), feature = "descriptive-gate"))]
 mod c20 {
     include!(concat!(env!("IPA_VERIF_DIR"), "/c20.rs"));
 }
